@@ -212,6 +212,31 @@ Definition ht_guard_implies_pool_ok (cs : list ht_case) : N :=
                                            negb (pool_ok (hc_pool c) (pool_test 1 (hc_pool c)))) cs)).
 Definition ht_byte_pools_guarded (cs : list ht_case) : N :=
   N.of_nat (List.length (filter (fun c => ht_guard c && negb (all_refs (hc_pool c))) cs)).
+(* how often the run's histories store, under a key that is present, a DIFFERENT value object that
+   slip.ObjectEqual accepts against the current one (5.0 over 5, a second list over an equal list): the stores a
+   "nothing to change" guard in (setf gethash) would lose (Proofs7: guarded_store_iff_identity).  Counted on the
+   model's state; expected well above 0 on every run (an enumerated block of the generator does it for every
+   ordered pair of representations). *)
+Fixpoint eq_overwrites (pool : list tkey) (st : tstate) (ops : list hop) : nat :=
+  match ops with
+  | [] => 0%nat
+  | o :: ops' =>
+      ((match o with
+        | HPut i v => match key_ok pool i, t_find pool st i with
+                      | Some true, Some w => if val_equal_m w v && negb (Z.eqb w v) then 1 else 0
+                      | _, _ => 0
+                      end
+        | _ => 0
+        end) + eq_overwrites pool (fst (t_step pool st o)) ops')%nat
+  end.
+Definition ht_equal_value_overwrites (cs : list ht_case) : N :=
+  fold_left (fun a c => (a + N.of_nat (eq_overwrites (hc_pool c) [] (hc_ops c)))%N) cs 0%N.
+(* values outside the coding of Model.v section 7 among the operations or the observations: expected 0 *)
+Definition hobs_vals (o : hobs) : list Z :=
+  match o with OVal v => [v] | OGet (Some v) => [v] | OEntries es => map snd es | _ => [] end.
+Definition ht_malformed_values (cs : list ht_case) : N :=
+  fold_left (fun a c => (a + N.of_nat (List.length (filter (fun v => negb (val_wf v))
+     (flat_map (fun o => match o with HPut _ v => [v] | _ => [] end) (hc_ops c) ++ flat_map hobs_vals (hc_obs c)))))%N) cs 0%N.
 
 (* ---- 3. types ------------------------------------------------------------------------------------ *)
 Inductive ty_case :=
